@@ -21,6 +21,8 @@ FS_FAULTS = {
     "name-dot-backslash": "a.\\b.txt",
     "name-double-backslash": "c\\\\d.txt",
     "symlink-loop": "loop-link",
+    # a link whose target runs through a regular file (stat fails with ENOTDIR, not ENOENT)
+    "symlink-through-file": "via-file",
     # the same kinds under a dot-name: the UMN handler takes dot-files for link files and reads them
     "dot-dangling-symlink": ".dangling",
     "dot-fifo": ".fifo",
@@ -106,6 +108,8 @@ def add_fault(t: Tree, kind: str, pos_name: str, suffix: str = "", healthy: typi
         t.symlink(name, "does-not-exist-anywhere")
     elif kind == "symlink-loop":
         t.symlink(name, name)
+    elif kind == "symlink-through-file":
+        t.symlink(name, (healthy[0] if healthy and healthy[0] not in ("gamma", "zeta") else "alpha.txt") + "/part2")
     elif kind == "fifo":
         t.special(name, "fifo")
     elif kind == "socket":
@@ -224,7 +228,17 @@ def run_case(chk: Check, sc: Scratch, idx: int, handlers, hl_name: str, nhealthy
         # two fault kinds that claim the same name (e.g. two kinds of .cap/<name>) cannot be in one directory
         chk.count("pairs_skipped_same_name")
         return
-    if linkmode:
+    if linkmode == "gophermap" and "gophermap" in faulty_names:
+        linkmode = None          # (the fault *is* the object called gophermap)
+    if linkmode == "gophermap":
+        # the directory is presented through a gophermap that names every entry, the unservable ones too; each
+        # line is an entry of the listing in its own right (the twin's map names the healthy ones only)
+        def gm(names):
+            return "".join("%s%s\t%s\n" % ("1" if n in ("gamma", "zeta") else "0", "Entry " + n.strip("."), n) for n in names)
+        inside = [n for n in faulty_names if "/" not in n and n != "gophermap" and "\t" not in n]
+        t.file("gophermap", "A directory with a map\n" + gm(list(healthy) + inside))
+        tt.file("gophermap", "A directory with a map\n" + gm(list(healthy)))
+    elif linkmode:
         stanzas = []
         for n in faulty_names:
             extra = {"hide": "Type=X\n", "rename": "Name=Renamed %s\n" % n.strip("."), "number": "Numb=1\n"}[linkmode]
@@ -275,7 +289,11 @@ def run_case(chk: Check, sc: Scratch, idx: int, handlers, hl_name: str, nhealthy
         if inj.open_errors and inj.hits == 0:
             chk.count("open_faults_on_entries_nobody_opens")    # e.g. a .txt file: listed without being read
         if (inj.phantoms or inj.stat_errors or inj.vanish_after_stat) and inj.hits == 0:
-            chk.note_inconclusive("fault injection hooks were never reached")
+            if linkmode == "gophermap" and not (inj.stat_errors or inj.vanish_after_stat):
+                # nothing enumerates a directory that has a map: the map itself names the entry that is not there
+                chk.count("absent_entries_named_by_a_map")
+            else:
+                chk.note_inconclusive("fault injection hooks were never reached")
         chk.case((hl_name, kinds, tuple(p for _, p in faults), nhealthy, bool(depth)),
                  {"handler": hl_name, "dir": sel, "faults": faults, "healthy": nhealthy, "views": len(VIEWS), "linkfile": linkmode}
                  if idx % 37 == 0 else None)
@@ -311,11 +329,11 @@ def main() -> int:
                     for nh in ([1, 4, 8] if not quick else [1, 5]):
                         # (one-character directory names: '/d/x' has the shape of a type-prefixed selector)
                         depth = [b"", b"sub/dir", b"d", b"", b"1", b"sub/dir"][idx % 6]
-                        modes = [None]
+                        modes = [None, "gophermap"]
                         if hl_name == "umn":
-                            modes = [None, "hide", "rename", "number"]
-                            if quick:
-                                modes = [modes[(idx // 3) % 4]]
+                            modes = [None, "hide", "rename", "number", "gophermap"]
+                        if quick:
+                            modes = [modes[(idx // 3) % len(modes)]]
                         for lm in modes:
                             run_case(chk, sc, idx, hl, hl_name, nh, [(kind, pos)], depth, lm)
                             idx += 1
